@@ -29,6 +29,9 @@ def shapes():
     out.append(Shape(3, 2, [[0, 1], [0], [0]], {(0, 0): {1: 1}, (0, 1): {2: 1}, (1, 0): {1: 1}, (2, 0): {2: 1}}, gamma=F(1), name='multichain-two-loops'))
     out.append(Shape(3, 2, [[0, 1], [0, 1], [0]], {(0, 0): {1: H, 0: H}, (0, 1): {2: 1}, (1, 0): {0: 1}, (1, 1): {1: Q1, 2: Q3}, (2, 0): {2: 1}}, absorb=[2], gamma=F(1),
                      name='transient-plus-absorbing'))
+    # machine maintenance: 'ok' can only run, 'worn' can patch (stays worn) or service (ok again) - three actions overall, each
+    # state lacks at least one of them, no absorbing state
+    out.append(Shape(2, 3, [[1], [0, 2]], {(0, 1): {1: 1}, (1, 0): {1: 1}, (1, 2): {0: 1}}, gamma=F(1), name='machine-maintenance'))
     return out
 
 
